@@ -116,13 +116,31 @@ structure Ledger where
   gasBurned : Int := 0
 deriving Repr, Inhabited
 
-/-- transaction.Signer as far as runtime.checkScope (interop/runtime/witness.go:65-113) looks at it for the
-scopes None (0), CalledByEntry (1), CustomContracts (16) and Global (128); witness rules and groups are not
-modelled (no signer of the generated transactions has them). -/
+/-- transaction.WitnessCondition (core/transaction/witness_condition.go).  `and` / `or` are binary: a condition
+list [c1, c2, c3] is `and c1 (and c2 c3)` (the loops of ConditionAnd/ConditionOr.Match, 222-233 / 319-330, return at
+the first false resp. true element, no element of this subset returns an error).  `group` / `calledByGroup`: the
+contracts of a case (the natives, the entry script, the helper contracts) have no manifest groups, so
+CurrentScriptHasGroup / CallingScriptHasGroup are false. -/
+inductive Cond
+  | bool (b : Bool)
+  | not (c : Cond)
+  | and (a b : Cond)
+  | or (a b : Cond)
+  | scriptHash (h : Nat)
+  | calledByEntry
+  | calledByContract (h : Nat)
+  | group
+  | calledByGroup
+deriving Repr, Inhabited
+
+/-- transaction.Signer as far as runtime.checkScope (interop/runtime/witness.go:65-113) looks at it: the scope bits
+None (0), CalledByEntry (1), CustomContracts (16), CustomGroups (32), Rules (64), Global (128), the allowed
+contracts and the witness rules `(allow?, condition)` in order. -/
 structure Signer where
   acc : Nat
   scopes : Nat
   allowed : List Nat := []
+  rules : List (Bool × Cond) := []
 deriving Repr, Inhabited
 
 /-- chain constants and the execution context. -/
@@ -761,16 +779,36 @@ def genesis (e : Env) (h : Nat) (gasInit : Int) : Option Ledger :=
 
 /-! ## witnesses -/
 
+/-- WitnessCondition.Match for a call of the native contract `cur` made by `caller` (`none` = the entry script):
+the current script is the native, the calling script is `caller`. -/
+def Cond.holds (caller : Option Nat) (cur : Nat) : Cond → Bool
+  | .bool b => b
+  | .not c => !(c.holds caller cur)
+  | .and a b => a.holds caller cur && b.holds caller cur
+  | .or a b => a.holds caller cur || b.holds caller cur
+  | .scriptHash h => h == cur
+  | .calledByEntry => caller.isNone
+  | .calledByContract h => caller == some h
+  | .group => false
+  | .calledByGroup => false
+
+/-- the loop over the witness rules (witness.go:97-108): the first rule whose condition matches decides. -/
+def rulesAllow (caller : Option Nat) (cur : Nat) : List (Bool × Cond) → Bool
+  | [] => false
+  | (allow, c) :: rest => if c.holds caller cur then allow else rulesAllow caller cur rest
+
 /-- runtime.CheckHashedWitness (interop/runtime/witness.go:21-27) + checkScope (65-113) for a call of the native
 contract `cur` made by `caller` (`none` = the entry script, so the native's context "is called by entry"):
-the calling contract itself, or the first signer with that account whose scope allows the call. -/
+the calling contract itself, or the first signer with that account whose scope allows the call — Global;
+CalledByEntry; CustomContracts listing the native; CustomGroups (never: no groups); the witness rules. -/
 def witOf (e : Env) (acc : Nat) (caller : Option Nat) (cur : Nat) : Bool :=
   if caller = some acc then true
   else
     match e.signers.find? (fun sg => sg.acc == acc) with
     | none => false
     | some sg =>
-      sg.scopes == 128 || (sg.scopes &&& 1 != 0 && caller.isNone) || (sg.scopes &&& 16 != 0 && sg.allowed.contains cur)
+      sg.scopes == 128 || (sg.scopes &&& 1 != 0 && caller.isNone) || (sg.scopes &&& 16 != 0 && sg.allowed.contains cur) ||
+        (sg.scopes &&& 64 != 0 && rulesAllow caller cur sg.rules)
 
 /-- NeoCache.committeeHash (updateCache 426-431): the majority multi-signature account of the committee's keys;
 `none` = an account nobody of the case can sign for. -/
@@ -789,8 +827,8 @@ def tokC (e : Env) : Tok → Nat
 
 /-! ## Policy.blockAccount / unblockAccount -/
 
-/-- BlockAccountInternalDeferrable (policy.go:668-711) after the committee check, for an account that is not a
-contract: the votes of the account are revoked without a witness (RevokeVotesDeferrable, native_neo.go:1036-1038;
+/-- BlockAccountInternalDeferrable (policy.go:668-711) after the committee check, for a plain account or a contract
+whose payment callback accepts a GAS mint (the only contracts of a case that can hold NEO): the votes of the account are revoked without a witness (RevokeVotesDeferrable, native_neo.go:1036-1038;
 its error is ignored), the GAS it had not claimed is minted to it, then the continuation looks the account up again
 (676-683: contract code run by the payment callback could have blocked it meanwhile — not for a plain account, so the
 second test repeats the first), adds it to the list and tells the NEO cache that the next committee has to be
@@ -836,7 +874,7 @@ inductive Op
   | txBegin (sender : Nat) (signers : List Signer)
   | transfer (t : Tok) (src dst : Nat) (amt : Int) (caller : Option Nat) (recv : Recv) (data : Data)
   | vote (acc : Nat) (pub : Option Nat) (caller : Option Nat)
-  | register (pub : Nat)
+  | register (pub : Nat) (caller : Option Nat)
   | unregister (pub : Nat) (caller : Option Nat)
   | lock (acc : Nat) (till : Nat) (caller : Option Nat)
   | withdraw (src : Nat) (dst : Option Nat) (caller : Option Nat) (recv : Recv)
@@ -910,6 +948,9 @@ def afterPosted (s : St) (t : Tok) (l : Ledger) (src dst : Nat) (amt : Int) (rec
       | none => s.throw
       | some l' => fin l'
     | _, _ => s.throw
+  -- a contract blocked by Policy cannot be called (callExFromNative, interop/contract/call.go:129-132): its
+  -- payment callback fails, which faults the transaction
+  else if recv ≠ .none ∧ l.blocked.contains dst then s.throw
   else
     match recv with
     | .none => fin l
@@ -986,7 +1027,7 @@ def exec (s : St) (op : Op) : St :=
           match mintGasCb s.env l acc g with
           | none => s.throw
           | some l' => s.done l' .t
-  | .register pub =>
+  | .register pub _ =>
     if s.failing then s else s.done (registerInternal s.cur pub) .t
   | .unregister pub caller =>
     if s.failing then s
@@ -1042,12 +1083,28 @@ def Op.isCall : Op → Bool
   | .block _ | .onPersist .. | .txBegin .. | .txEnd _ | .postPersist => false
   | _ => true
 
+/-- the contract that makes the call (`none`: the entry script, or not a call). -/
+def Op.caller : Op → Option Nat
+  | .transfer _ _ _ _ c _ _ | .vote _ _ c | .register _ c | .unregister _ c | .lock _ _ c | .withdraw _ _ c _
+  | .setGpb _ c | .setRegPrice _ c | .blockAcc _ c | .unblockAcc _ c => c
+  | _ => none
+
+/-- a call the entry script makes through a contract that Policy has blocked: System.Contract.Call refuses to enter
+the contract (interop/contract/call.go:129-132) and the transaction faults.  (A contract that is already running —
+inside its payment callback — is not affected.) -/
+def callerBlocked (s : St) (op : Op) : Bool :=
+  !s.failing && s.cbs.isEmpty &&
+  match op.caller with
+  | some c => s.cur.blocked.contains c
+  | none => false
+
 def step (s : St) (op : Op) : St :=
   if s.skip > 0 ∧ op.isCall then
     match op with
     | .transfer _ _ _ _ _ .cb _ => { s with skip := s.skip + 1 }
     | .endCb => { s with skip := s.skip - 1 }
     | _ => s
+  else if callerBlocked s op then s.throw
   else exec s op
 
 def run (s : St) (ops : List Op) : St := ops.foldl step s
